@@ -81,6 +81,12 @@ class TraceProp(Prop):
         n = rng.choice(self.steps_quick) if tier == 'quick' else rng.choice((10, 20, 40, 60))
         autoflush = rng.random() < 0.3
         prog = proggen.random_program(rng, spec, n, weights=self.weights, autoflush=autoflush)
+        if spec.get('shape') == 'nvparent' and rng.random() < 0.7:
+            # the flush-time change: a non-versioned parent with versioned children is deleted on its own
+            pos = rng.randrange(0, len(prog) + 1)
+            prog = ([['add', 'Category', [1], {'title': 1}], ['add', 'Article', [3], {'name': 1}],
+                     ['setrel', 'Article', [3], 'category', 'Category', [1]], ['commit']] + prog[:pos] +
+                    [['commit'], ['del', 'Category', [1]], ['commit']] + prog[pos:])
         case = {'spec': spec, 'autoflush': autoflush, 'program': prog}
         import os
         if rng.random() < float(os.environ.get('VERIF_JOIN_P', '0.1')):
@@ -381,7 +387,7 @@ def _row_switch_in(program):
 
 class C01(TraceProp):
     id = 'C01'
-    theorems = ['Continuum.c01_holds_corrected', 'Continuum.liveInv_after_commit_corrected', 'Continuum.liveInv_after_rollback',
+    theorems = ['Continuum.c01_holds_corrected', 'Continuum.flushtime_sound', 'Continuum.liveInv_after_commit_corrected', 'Continuum.liveInv_after_rollback',
                 'Continuum.liveInv_init', 'Continuum.inv_run', 'Continuum.c01_newestIsLive', 'Continuum.c01_removedIsDelete',
                 'Continuum.c01_onlyRealChanges', 'Continuum.c01_changedHasRow', 'Continuum.c01_deleteVals', 'Continuum.c01_pastKept']
     sections = ('versions',)
